@@ -318,9 +318,11 @@ theorem c06_graph_recursive_unchecked :
     Code.check envTree (.node 5 [.list [.node 1 [.list []]]]) = true ∧
     Spec.vStruct envTree 0 (.node 5 [.list [.node 1 [.list []]]]) = false := by decide
 
-/-- a `required` pointer under a back edge accepts nil: `Node{V:5, Next:nil}` -/
+/-- below the first level a `required` pointer may be nil and a rule may be violated:
+    `Node{V:5, Next:&Node{V:1, Next:nil}}` is accepted (the first level rejects a nil `Next` since bc2d4fc) -/
 theorem c06_graph_recursive_required_nil :
-    Code.check envNode (.node 5 [.nil]) = true ∧ Spec.vStruct envNode 0 (.node 5 [.nil]) = false := by decide
+    Code.check envNode (.node 5 [.nil]) = false ∧
+    Code.check envNode (.node 5 [.node 1 [.nil]]) = true ∧ Spec.vStruct envNode 0 (.node 5 [.node 1 [.nil]]) = false := by decide
 
 /-- a nil slice in a field that is not `required` is rejected: `R{V:5, X:L{V:5}, Y:nil}` -/
 theorem c06_graph_nil_slice_rejected :
